@@ -39,6 +39,8 @@ def simulate_docs(ctx, num, maxtok=40, maxdepth=6, maxlist=3, jvms=None, depth=3
 
 
 STR_ATOMS = ["a", "b", "Z", "0", "9", " ", ".", ",", "-", "_", "/", ":", "&", "<", ">", '"', "'", "é", "€", "漢", "😀", "%", "]", "[", "=", "+"]
+# fragments that make the VALUE itself look like it holds an entity (the wire must escape the '&')
+ENTITY_LIKE = ["&lt;", "&gt;", "&amp;", "&quot;", "&apos;", "&nbsp;", "&#65;", "&x;", "&amp;lt;"]
 ENT = {"&": "&amp;", "<": "&lt;", ">": "&gt;", '"': "&quot;", "'": "&apos;"}
 
 
@@ -51,6 +53,11 @@ def str_value(rnd, maxlen):
         k = 1.0
         n = rnd.randrange(1, min(n, 80) + 1)
     s = "".join(rnd.choice(STR_ATOMS) for _ in range(n)).strip()
+    if rnd.random() < 0.25:
+        frag = rnd.choice(ENTITY_LIKE)
+        if len(frag) <= n:
+            p = rnd.randrange(0, n - len(frag) + 1)
+            s = (s[:p] + frag + s[p + len(frag):])[:n].strip()
     while len(s) < 1:
         s = "x"
     if len(s) < n and k < 0.2:
